@@ -8,3 +8,5 @@ import JaxVerif.Properties.C19
 #print axioms JV.C19_generated_good
 #print axioms JV.C19_late_test_differs
 #print axioms JV.C19_source_disabled
+#print axioms JV.C19_source_parse
+#print axioms JV.C19_source_update
